@@ -183,6 +183,11 @@ func checkWaitGroupFanout(c *core.Ctx, r *core.Report, rule string, g *ssa.Go, c
 		}
 	}
 	if done == nil {
+		// the other join: every goroutine sends one token on a channel when it is finished, the parent receives one
+		// token per goroutine it started
+		if tj := tokenJoinOf(c, g, body); tj != nil {
+			return checkTokenJoin(c, r, rule, g, cons, body, tj)
+		}
 		r.Fail(rule+".R2", cons+":done", pos, "goroutine body never calls WaitGroup.Done: the parent cannot wait for it (or the idiom is not a WaitGroup fan-out)")
 		return body, false
 	}
@@ -804,6 +809,110 @@ func fanGosOf(c *core.Ctx, fn *ssa.Function) []*ssa.Go {
 					out = append(out, g)
 				}
 			}
+			for _, ps := range helperPayloads(c, g) {
+				if ps.payload == fn {
+					out = append(out, g)
+				}
+			}
+		}
+	}
+	// (a group helper is also a helper that runs a function it was handed: once is enough)
+	var uniq []*ssa.Go
+	seen := map[*ssa.Go]bool{}
+	for _, g := range out {
+		if !seen[g] {
+			seen[g] = true
+			uniq = append(uniq, g)
+		}
+	}
+	return uniq
+}
+
+// payloadSite: a helper that owns a fan-out (loop, goroutines and join) runs a function it was handed inside each
+// goroutine; at a call site of the helper that function - the payload - is a literal of the caller.
+type payloadSite struct {
+	site    *ssa.Call
+	payload *ssa.Function
+	mc      *ssa.MakeClosure    // where the caller makes the payload (nil for a named function)
+	call    ssa.CallInstruction // the call of the handed-over function inside the goroutine body
+}
+
+// helperPayloads: the go statement g sits in a function H (never used as a value) whose goroutine body calls one of
+// H's function-typed parameters; returns, for every static call site of H, the function handed over there.
+func helperPayloads(c *core.Ctx, g *ssa.Go) []payloadSite {
+	h := g.Parent()
+	wrapper := goBodyOf(g)
+	if h == nil || wrapper == nil || h.Parent() != nil || len(c.FuncValueUses(h)) != 0 {
+		return nil
+	}
+	var out []payloadSite
+	for pi, p := range h.Params {
+		if _, isSig := p.Type().Underlying().(*types.Signature); !isSig {
+			continue
+		}
+		// the wrapper calls p: captured (a free variable bound to p) or passed as an argument of the go call
+		var dyn ssa.CallInstruction
+		for _, ci := range core.Calls(wrapper) {
+			com := ci.Common()
+			if com.IsInvoke() || com.StaticCallee() != nil {
+				continue
+			}
+			v := com.Value
+			if ld, ok := v.(*ssa.UnOp); ok && ld.Op == token.MUL {
+				v = ld.X
+			}
+			switch x := v.(type) {
+			case *ssa.FreeVar:
+				if mc, ok := g.Call.Value.(*ssa.MakeClosure); ok {
+					for i, fv := range wrapper.FreeVars {
+						if fv != x || i >= len(mc.Bindings) {
+							continue
+						}
+						bnd := mc.Bindings[i]
+						if al, isAl := bnd.(*ssa.Alloc); isAl {
+							// a captured parameter lives in a cell that is written once, with the parameter
+							if st := core.SingleStore(al); st != nil {
+								bnd = st
+							}
+						}
+						if core.Norm(bnd) == ssa.Value(p) {
+							dyn = ci
+						}
+					}
+				}
+			case *ssa.Parameter:
+				for i, q := range wrapper.Params {
+					if q == x && i < len(g.Call.Args) && core.Norm(g.Call.Args[i]) == ssa.Value(p) {
+						dyn = ci
+					}
+				}
+			}
+		}
+		if dyn == nil {
+			continue
+		}
+		for _, site := range staticCallsOf(h) {
+			if pi >= len(site.Call.Args) {
+				return nil
+			}
+			fn := core.ClosureOf(site.Call.Args[pi])
+			if fn == nil || fn.Blocks == nil {
+				return nil
+			}
+			ps := payloadSite{site: site, payload: fn, call: dyn}
+			v := site.Call.Args[pi]
+			for i := 0; i < 4 && v != nil; i++ {
+				switch x := v.(type) {
+				case *ssa.MakeClosure:
+					ps.mc = x
+					v = nil
+				case *ssa.ChangeType:
+					v = x.X
+				default:
+					v = nil
+				}
+			}
+			out = append(out, ps)
 		}
 	}
 	return out
@@ -881,4 +990,277 @@ func goStatementsOf(body *ssa.Function) []*ssa.Go {
 		}
 	}
 	return out
+}
+
+// ---- joining by tokens on a channel ------------------------------------------------------------------------
+
+type tokenJoin struct {
+	ch       *ssa.MakeChan
+	send     *ssa.Send
+	deferred bool      // the send sits in a function deferred at the entry of the goroutine body
+	recv     *ssa.UnOp // the parent's receive
+}
+
+// fanJoined: for a fan-out joined by tokens, the first instruction after the receiving loop (what WaitGroup.Wait's
+// return is for the other idiom): everything the goroutines did happens before it.
+var fanJoined sync.Map // *ssa.Go -> ssa.Instruction
+
+// chanSource follows a channel value up through loads of single-assignment variables and the captures of function
+// literals to the make(chan) it comes from (nil if it cannot be followed).
+func chanSource(v ssa.Value, fn *ssa.Function, depth int) *ssa.MakeChan {
+	for i := 0; i < 12 && v != nil && depth < 4; i++ {
+		switch x := v.(type) {
+		case *ssa.MakeChan:
+			return x
+		case *ssa.ChangeType:
+			v = x.X
+		case *ssa.UnOp:
+			if x.Op != token.MUL {
+				return nil
+			}
+			v = x.X
+		case *ssa.Alloc:
+			st := core.SingleStore(x)
+			if st == nil {
+				return nil
+			}
+			v = st
+		case *ssa.FreeVar:
+			parent := fn.Parent()
+			if parent == nil {
+				return nil
+			}
+			idx := -1
+			for k, fv := range fn.FreeVars {
+				if fv == x {
+					idx = k
+				}
+			}
+			var bound ssa.Value
+			for _, b := range parent.Blocks {
+				for _, in := range b.Instrs {
+					if mc, ok := in.(*ssa.MakeClosure); ok && mc.Fn == ssa.Value(fn) && idx >= 0 && idx < len(mc.Bindings) {
+						bound = mc.Bindings[idx]
+					}
+				}
+			}
+			if bound == nil {
+				return nil
+			}
+			return chanSource(bound, parent, depth+1)
+		default:
+			return nil
+		}
+	}
+	return nil
+}
+
+// tokenJoinOf recognises the sending side: the goroutine body (with the function it defers at its entry) sends exactly
+// once, on a channel made by the spawning function.
+func tokenJoinOf(c *core.Ctx, g *ssa.Go, body *ssa.Function) *tokenJoin {
+	parent := g.Parent()
+	var sends []*ssa.Send
+	var inDeferred []bool
+	scan := func(fn *ssa.Function, deferred bool) {
+		for _, b := range fn.Blocks {
+			for _, in := range b.Instrs {
+				if sd, ok := in.(*ssa.Send); ok {
+					sends = append(sends, sd)
+					inDeferred = append(inDeferred, deferred)
+				}
+			}
+		}
+	}
+	scan(body, false)
+	for _, in := range body.Blocks[0].Instrs {
+		if d, ok := in.(*ssa.Defer); ok {
+			if lit := core.ClosureOf(d.Call.Value); lit != nil && lit.Parent() == body {
+				// the deferred function does nothing but send
+				clean := true
+				for _, ci := range core.Calls(lit) {
+					if !core.IsLogCall(ci.Common()) {
+						clean = false
+					}
+				}
+				if clean {
+					scan(lit, true)
+				}
+			}
+		}
+	}
+	if len(sends) != 1 {
+		return nil
+	}
+	ch := chanSource(sends[0].Chan, sends[0].Parent(), 0)
+	if ch == nil || ch.Parent() != parent {
+		return nil
+	}
+	tj := &tokenJoin{ch: ch, send: sends[0], deferred: inDeferred[0]}
+	n := 0
+	for _, b := range parent.Blocks {
+		for _, in := range b.Instrs {
+			if u, ok := in.(*ssa.UnOp); ok && u.Op == token.ARROW && chanSource(u.X, parent, 0) == ch {
+				tj.recv = u
+				n++
+			}
+			if sd, ok := in.(*ssa.Send); ok && chanSource(sd.Chan, parent, 0) == ch {
+				return nil // the parent sends tokens itself
+			}
+		}
+	}
+	if n != 1 {
+		return nil
+	}
+	return tj
+}
+
+// checkTokenJoin decides the token protocol: (R2) the token is sent when the goroutine is finished, on every exit;
+// (R1) one goroutine per iteration, and the number of tokens the parent receives is the number of goroutines it
+// started; (R3) the receiving loop lies on every path from the fan-out loop to the function's exit.
+func checkTokenJoin(c *core.Ctx, r *core.Report, rule string, g *ssa.Go, cons string, body *ssa.Function, tj *tokenJoin) (*ssa.Function, bool) {
+	parent := g.Parent()
+	pos := c.Pos(g.Pos())
+	if tj.deferred {
+		first := true
+		for _, in := range body.Blocks[0].Instrs {
+			if _, isD := in.(*ssa.Defer); isD {
+				if lit := core.ClosureOf(in.(*ssa.Defer).Call.Value); lit != tj.send.Parent() && first {
+					r.Fail(rule+".R2", cons+":done-is-last", c.Pos(in.Pos()), "a call deferred before the token is sent runs after it: the parent can go on while this goroutine is still working")
+				}
+				if core.ClosureOf(in.(*ssa.Defer).Call.Value) == tj.send.Parent() {
+					first = false
+				}
+			}
+		}
+		r.Hold(rule+".R2", cons+":done", c.Pos(tj.send.Pos()), "the token is sent by a function deferred in the entry block of the goroutine body, so it is sent on every exit including panics")
+	} else {
+		pdAll := true
+		for _, ci := range core.Calls(body) {
+			if core.IsLogCall(ci.Common()) {
+				continue
+			}
+			if !c.InstrPostDominates(tj.send, ci) || core.Dominates(tj.send, ci) {
+				pdAll = false
+			}
+		}
+		r.Check(pdAll && !core.InLoop(tj.send.Block()), rule+".R2", cons+":done", c.Pos(tj.send.Pos()), "the token is sent after every other call of the goroutine body, once")
+	}
+	l1 := core.InnermostLoop(parent, g.Block())
+	if l1 == nil {
+		r.Undecided(rule+".R1", cons+":add", pos, "go statement is not inside a loop")
+		return body, false
+	}
+	if mc, isMC := g.Call.Value.(*ssa.MakeClosure); isMC {
+		for _, b := range mc.Bindings {
+			al, isAl := b.(*ssa.Alloc)
+			if !isAl || l1.Blocks[al.Block()] {
+				continue
+			}
+			for _, rf := range *al.Referrers() {
+				if st, isSt := rf.(*ssa.Store); isSt && l1.Blocks[st.Block()] {
+					r.Fail(rule+".R2", cons+":captured:"+al.Comment, c.Pos(st.Pos()), "the goroutine captures a variable that the spawning loop writes on every iteration: it reads it while the loop changes it")
+					break
+				}
+			}
+		}
+	}
+	oncePer := func(l *core.Loop, in ssa.Instruction) bool {
+		be := loopBodyEntry(l)
+		if be == nil || core.InnermostLoop(parent, in.Block()) != l {
+			return false
+		}
+		if !(in.Block() == be || c.PostDom(parent).PostDominates(in.Block(), be)) {
+			return false
+		}
+		for b := range l.Blocks {
+			for _, s := range b.Succs {
+				if !l.Blocks[s] && b != l.Header {
+					return false // an early exit
+				}
+			}
+		}
+		return true
+	}
+	nGo := 0
+	for b := range l1.Blocks {
+		for _, in := range b.Instrs {
+			if gg, isGo := in.(*ssa.Go); isGo && wgSameBody(gg, body) {
+				nGo++
+			}
+		}
+	}
+	r.Check(oncePer(l1, g) && nGo == 1, rule+".R1", cons+":one-go-per-iteration", pos, "every iteration starts exactly one goroutine and the loop has no early exit")
+	// the receiving loop
+	l2 := core.InnermostLoop(parent, tj.recv.Block())
+	okCount, detail := false, ""
+	if l2 != nil && l2 != l1 && !l1.Blocks[l2.Header] && oncePer(l2, tj.recv) {
+		// (a) a counter raised once per goroutine and lowered once per token
+		for _, in := range l2.Header.Instrs {
+			phi2, ok := in.(*ssa.Phi)
+			if !ok {
+				continue
+			}
+			var vin ssa.Value
+			dec := false
+			for k, e := range phi2.Edges {
+				if l2.Blocks[l2.Header.Preds[k]] {
+					if bo, isBO := e.(*ssa.BinOp); isBO && bo.Op == token.SUB && bo.X == ssa.Value(phi2) {
+						if kk, isK := core.ConstInt(bo.Y); isK && kk == 1 && oncePer(l2, bo) {
+							dec = true
+						}
+					}
+				} else {
+					vin = e
+				}
+			}
+			iff, isIf := l2.Header.Instrs[len(l2.Header.Instrs)-1].(*ssa.If)
+			if !dec || vin == nil || !isIf {
+				continue
+			}
+			cmp, isCmp := iff.Cond.(*ssa.BinOp)
+			if !isCmp || cmp.X != ssa.Value(phi2) || !l2.Blocks[l2.Header.Succs[0]] {
+				continue
+			}
+			if kk, isK := core.ConstInt(cmp.Y); !isK || kk != 0 || (cmp.Op != token.GTR && cmp.Op != token.NEQ) {
+				continue
+			}
+			phi1, isPhi := vin.(*ssa.Phi)
+			if !isPhi || phi1.Block() != l1.Header {
+				continue
+			}
+			zero, inc := false, false
+			for k, e := range phi1.Edges {
+				if l1.Blocks[l1.Header.Preds[k]] {
+					if bo, isBO := e.(*ssa.BinOp); isBO && bo.Op == token.ADD && bo.X == ssa.Value(phi1) {
+						if kk, isK := core.ConstInt(bo.Y); isK && kk == 1 && oncePer(l1, bo) {
+							inc = true
+						}
+					}
+				} else if kk, isK := core.ConstInt(e); isK && kk == 0 {
+					zero = true
+				}
+			}
+			if zero && inc {
+				okCount, detail = true, "a counter starts at 0, is raised once per goroutine started and lowered once per token received until it is 0"
+			}
+		}
+		// (b) one token per element of the collection the fan-out ranged over
+		if !okCount {
+			rl1, rl2 := core.RangeLoopOf(parent, g.Block()), core.RangeLoopOf(parent, tj.recv.Block())
+			if rl1 != nil && rl2 != nil && rl1.Loop == l1 && rl2.Loop == l2 && core.Equiv(rl1.Slice, rl2.Slice) {
+				okCount, detail = true, "one token is received per element of the collection the fan-out ranged over"
+			}
+		}
+	}
+	r.Check(okCount, rule+".R1", cons+":add", pos, "the parent receives exactly as many tokens as it started goroutines: "+detail)
+	okWait := l2 != nil && okCount && c.PostDom(parent).PostDominates(l2.Header, l1.Header)
+	r.Check(okWait, rule+".R3", cons+":wait", pos, "the receiving loop lies on every path from the fan-out loop to the function's exit")
+	if okWait {
+		for _, s := range l2.Header.Succs {
+			if !l2.Blocks[s] && len(s.Instrs) > 0 {
+				fanJoined.Store(g, s.Instrs[0])
+			}
+		}
+	}
+	return body, okCount && okWait
 }
